@@ -19,6 +19,18 @@ def gen_cases(ctx, n):
     secs_pos = [0, 1, 2, 59, 2**31 - 1, 2**31, 2**32, 2**62, I64_MAX - 2, I64_MAX - 1, I64_MAX]
     secs_neg = [-1, -2, -2**31, I64_MIN + 1, I64_MIN]
     nsecs = [0, 1, 2, 499999999, 500000000, 999999998, 999999999]
+    # unit-conversion thresholds: seconds at which seconds * 10^k crosses an integer-width boundary (a conversion to
+    # a single nanosecond / microsecond / millisecond count overflows exactly there), and the sub-second remainders
+    # of those boundaries (the overflow then depends on the nanosecond field)
+    for width in (2**31, 2**32, 2**63, 2**64):
+        for scale in (10**3, 10**6, NANOS):
+            q, rem = divmod(width - 1, scale)
+            secs_pos += [x for x in (q - 1, q, q + 1) if 0 <= x <= I64_MAX]
+            if scale == NANOS:
+                nsecs += [x for x in (rem - 1, rem, rem + 1) if 0 <= x < NANOS]
+            else:
+                nsecs += [x for x in (rem * (NANOS // scale), rem * (NANOS // scale) + NANOS // scale - 1) if 0 <= x < NANOS]
+    secs_neg += [-x for x in secs_pos if 2**20 < x < 2**62]
 
     def sec(neg_ok):
         k = r.below(10)
